@@ -14,8 +14,8 @@ import impl
 import srcmod
 
 ID = "C10"
-THEOREMS = ["streamOp_untyped_identity", "follow_untyped", "methodCall_untyped", "follow_name", "follow_const", "follow_lambda", "fillLoop_complete"]
-LEANCHECKER_MODULES = ["Fadl.Props.C10Full", "Fadl.Props.C10"]  # re-checked by leanchecker in the thorough tier
+THEOREMS = ["streamOp_untyped_identity", "streamOp_untyped_no_internal", "follow_noInt", "checkAst_noInt", "follow_untyped", "methodCall_untyped", "follow_name", "follow_const", "follow_lambda", "fillLoop_complete"]
+LEANCHECKER_MODULES = ["Fadl.Props.C10Full", "Fadl.Props.C10NoInt", "Fadl.Props.C10"]  # re-checked by leanchecker in the thorough tier
 RULE = (
     "single-parameter lambdas over names (pool includes value, id, attr, ctx, lineno, elts, args, func, keys, body, "
     "slice), attributes, calls with positional / keyword / starred arguments, subscripts (constant, variable, negative, "
@@ -38,8 +38,17 @@ EXPLANATION = (
     "Oracle: an independent reference in Python of the five designed refusals (mini type inference over the documented "
     "rules); where it predicts no refusal the emitted lambda must be structurally identical to the input and no exception "
     "may occur; where it predicts one the exception must be ValueError; anything else (KeyError, TypeError, "
-    "AttributeError ...) is a violation. PARTIAL: that the refusals are exactly the five designed ones is the oracle's "
-    "claim, not a theorem."
+    "AttributeError ...) is a violation. Second theorem streamOp_untyped_no_internal (Props/C10NoInt.lean, from follow_noInt: "
+    "induction over the fuel and every clause of the follower, using follow_untyped for the shape of accepted sub-results): "
+    "under the same hypotheses plus wfU (a tree Python's parser can produce: dictionary literals with as many keys as values "
+    "whose keys evaluate without a TypeError, no constant tuple index below -len), whatever Select / SelectMany / Where fail "
+    "with is a designed refusal (ValueError) - never AttributeError / TypeError / IndexError / KeyError / AssertionError; "
+    "Err.designed also admits the model's own fuel exhaustion and opaque constants (outside the modelled fragment). The "
+    "hypotheses are evaluated on every generated case (driver ops untypedHyp, wfU) and where they hold a non-ValueError "
+    "failure of the IMPLEMENTATION is reported. Stating this theorem exposed defect a2ed5f2 (attribute access on a "
+    "dictionary literal with a non-Constant key node raised AttributeError), repaired in the repo. What stays the oracle's "
+    "claim: WHICH ValueErrors are raised (the five designed refusals) - the theorem bounds the kind of failure, not its "
+    "message; and that the model's fuel (4*size+8) always suffices is checked by the correspondence, not proved."
 )
 
 MODEL_UNTYPED = (
@@ -315,6 +324,19 @@ def check_cases(ctx, cases):
                             "the hypotheses of the identity theorem hold but the implementation emitted a different lambda")
         else:
             ctx.dist["hypotheses of streamOp_untyped_identity do not hold"] += 1
+    # hypotheses of streamOp_untyped_no_internal (untyped, no registered function called by name, a tree the parser can
+    # produce): where they hold the implementation (not only the model) must not fail with anything but ValueError
+    wf = ctx.driver.batch([("wfU", [r[1][3]]) for r in reqs])
+    for (op, src, how, got), h, w in zip(keep, hyp, wf):
+        if tuple(h) == ("ok", "true") and tuple(w) == ("ok", "true"):
+            ctx.dist["hypotheses of streamOp_untyped_no_internal hold"] += 1
+            if got[0] == "err":
+                ctx.dist["… and the implementation refused"] += 1
+                if got[1] != "ValueError":
+                    ctx.violate({"op": op, "src": src, "how": how, "got": got[1]},
+                                "the hypotheses of the no-internal-error theorem hold but the implementation failed with an internal error")
+        else:
+            ctx.dist["hypotheses of streamOp_untyped_no_internal do not hold"] += 1
     for (op, src, how, got), (st, payload) in zip(keep, res):
         if got[0] == "ok":
             from sexpr import parse as sparse, render
